@@ -83,6 +83,11 @@ func genMeta(t *core.Tape, prefix string, bin map[string][][]byte) http.Header {
 			continue
 		}
 		key := fmt.Sprintf("%s-%d", prefix, i)
+		if t.Bool(1, 6, "meta.oddname") {
+			// names that merely contain a protocol marker in the middle
+			key = fmt.Sprintf("%s-%d-%s", prefix, i, []string{"Trailer-Id", "Grpc-Status-Like", "Trailer-", "Content-Typeish"}[t.Choose(4, "meta.odd")])
+			key = http.CanonicalHeaderKey(key)
+		}
 		for j := 0; j < nv; j++ {
 			h.Add(key, genValue(t))
 		}
@@ -224,6 +229,20 @@ func genRich(t *core.Tape, tier, prop string) *Scenario {
 		sc.Notes["fail_"+p.Kind.String()]++
 	} else {
 		sc.Notes["ok_"+p.Kind.String()]++
+	}
+	if prop == "C11" && (p.Kind == KServer || p.Kind == KBidi) && t.Bool(1, 3, "peek.header") {
+		// the client looks at the response headers before its first Receive
+		prog := &p.CProg
+		if p.Split {
+			prog = &p.CProgRcv
+		}
+		for i, op := range *prog {
+			if op.Op == "recv" || op.Op == "recvall" {
+				*prog = append((*prog)[:i:i], append([]COp{{Op: "peekhdr"}}, (*prog)[i:]...)...)
+				sc.Notes["header_read_before_first_receive"]++
+				break
+			}
+		}
 	}
 	boundSteps(p)
 	genYield(t, p)
@@ -448,6 +467,12 @@ func checkC11(w *World, st core.Status, r *RunResult) []Violation {
 				continue
 			}
 			r.Probes["success_calls_checked"]++
+			if o.Peeked && len(o.Recv) >= 1 && hdrSet {
+				r.Probes["peeked_headers_checked"]++
+				if why, ok := containsValues(o.PeekHeader, p.RespHeader); !ok {
+					add("response-header-before-first-receive", why)
+				}
+			}
 			if len(o.Recv) >= 1 {
 				if why, ok := containsValues(o.RespHeader, p.RespHeader); hdrSet && !ok {
 					add("response-header", why)
